@@ -2,6 +2,7 @@
 package netpoll
 
 import (
+	"context"
 	"errors"
 	"fmt"
 	"io"
@@ -17,6 +18,8 @@ func init() {
 	vcScenarios["C08"] = vcScenC08
 	vcDirected["C08"] = []vcScenario{
 		func(t *vcTrial) { vcRunC08TimerTie(t, 250) },
+		func(t *vcTrial) { vcRunC08HupUnderDisconnect(t, false, false) },
+		func(t *vcTrial) { vcRunC08HupUnderDisconnect(t, true, true) },
 		func(t *vcTrial) { vcRunC08(t, vc08Cfg{Kind: "fdconn", Peer: "stall", TimeoutKind: "timeout", Size: 1 << 20, Flushes: 1}) },
 		func(t *vcTrial) { vcRunC08(t, vc08Cfg{Kind: "fdconn", Peer: "stall", TimeoutKind: "deadline", Size: 1 << 20, Flushes: 1}) },
 		func(t *vcTrial) { vcRunC08(t, vc08Cfg{Kind: "dial", Peer: "delay", TimeoutKind: "none", Size: 2 << 20, Flushes: 2, Second: true}) },
@@ -46,6 +49,10 @@ func vcScenC08(t *vcTrial) {
 	r := t.R
 	if r.intn(60) == 0 {
 		vcRunC08TimerTie(t, r.rng(60, 250))
+		return
+	}
+	if r.intn(40) == 0 {
+		vcRunC08HupUnderDisconnect(t, r.chance(50), r.chance(50))
 		return
 	}
 	cfg := vc08Cfg{Kind: []string{"dial", "accept", "fdconn"}[r.intn(3)]}
@@ -730,4 +737,117 @@ func vcRunC08TimerTie(t *vcTrial, rounds int) {
 	t.Stat("timer_tie_follow_ups", followUps)
 	t.Nontrivial = completed > 5 && timedOut > 5
 	t.Sig = fmt.Sprintf("write-timer-tie|balanced=%v", t.Nontrivial)
+}
+
+// vcRunC08HupUnderDisconnect: an accepted connection with OnConnect/OnDisconnect callbacks, a Flush
+// parked on a full socket, then the peer closes. "Fails with ErrConnClosed if the connection is
+// closed; it never waits beyond that": the parked Flush must return although the user's
+// OnDisconnect callback is still running - here the callback waits for the Flush (as a callback
+// that takes the writer's mutex would) and gives up after eight seconds.
+func vcRunC08HupUnderDisconnect(t *vcTrial, rst bool, withOnRequest bool) {
+	t.P("variant", "blocked Flush, peer closes, OnDisconnect waits for the writer")
+	t.P("rst", rst)
+	t.P("with_onrequest", withOnRequest)
+	flushRet := make(chan struct{})
+	var gaveUp, cbRan int32
+	so := vcSrvOpts{Network: "tcp", NoOnRequest: !withOnRequest}
+	so.OnConnect = func(ctx context.Context, rec *vcConnRec) {}
+	so.OnDisconnect = func(ctx context.Context, rec *vcConnRec) {
+		atomic.StoreInt32(&cbRan, 1)
+		select {
+		case <-flushRet:
+		case <-time.After(8 * time.Second):
+			atomic.StoreInt32(&gaveUp, 1)
+		}
+	}
+	if withOnRequest {
+		so.OnRequest = func(ctx context.Context, rec *vcConnRec) error {
+			rec.Conn.Reader().Skip(rec.Conn.Reader().Len())
+			rec.Conn.Reader().Release()
+			return nil
+		}
+	}
+	srv, err := vcStartServer(so)
+	if err != nil {
+		t.Inconclusive("server: %v", err)
+		return
+	}
+	defer srv.Stop(2 * time.Second)
+	raw, err := vcDialRaw(srv)
+	if err != nil {
+		t.Inconclusive("dial: %v", err)
+		return
+	}
+	rec := srv.nextAccepted(3 * time.Second)
+	if rec == nil {
+		raw.Close()
+		t.Inconclusive("accept not seen")
+		return
+	}
+	conn := rec.Conn
+	defer conn.Close()
+	pfd := vcStealFD(raw)
+	peer := &vc08Peer{fd: pfd, seed: 1, done: make(chan struct{})} // mode 0: never reads
+	defer peer.close(false)
+	vcSetBuf(conn.(Conn).Fd(), 4<<10, 0)
+	vcSetBuf(pfd, 0, 16<<10)
+	conn.SetWriteTimeout(0)
+	conn.SetWriteDeadline(time.Time{})
+	mark := vcTraceMark()
+	stopCanary := vcSchedCanary()
+	var ferr error
+	var retAt int64
+	go func() {
+		defer close(flushRet)
+		b, err := conn.Writer().Malloc(2 << 20)
+		if err != nil {
+			ferr = err
+			return
+		}
+		vfFill(b, 1, 0)
+		ferr = conn.Writer().Flush()
+		atomic.StoreInt64(&retAt, vfNow())
+	}()
+	if !vcWaitPoint(mark, vpWaitFlushBeforeBlock, vcConnID(conn), 5*time.Second) {
+		stopCanary()
+		peer.close(false)
+		select {
+		case <-flushRet:
+		case <-time.After(10 * time.Second):
+		}
+		t.Inconclusive("the Flush did not park on the full socket")
+		return
+	}
+	time.Sleep(time.Duration(t.R.rng(0, 2000)) * time.Microsecond)
+	closedAt := vfNow()
+	peer.close(rst)
+	select {
+	case <-flushRet:
+	case <-time.After(30 * time.Second):
+		stopCanary()
+		if vcRunnerProgress(5, 5*time.Second) {
+			t.Violate("C08", "flush_stuck", "a Flush parked on a full socket has not returned 30 s after the peer closed (OnDisconnect callback ran: %v, gave up waiting for the writer: %v)", atomic.LoadInt32(&cbRan) != 0, atomic.LoadInt32(&gaveUp) != 0)
+		} else {
+			t.Inconclusive("flush did not return, runner canary without progress")
+		}
+		return
+	}
+	starved := stopCanary()
+	t.P("longest_2ms_sleep", starved.String())
+	waited := time.Duration(atomic.LoadInt64(&retAt) - closedAt)
+	if ferr == nil {
+		t.Violate("C08", "nil_but_short", "Flush of 2 MB returned nil although the peer never read and closed")
+	}
+	t.P("flush_error", fmt.Sprint(ferr))
+	if atomic.LoadInt32(&gaveUp) != 0 {
+		if starved > time.Second {
+			t.Inconclusive("OnDisconnect gave up waiting for the writer on a starved machine (a 2 ms sleep took %v)", starved)
+			return
+		}
+		t.Violate("C08", "flush_waits_beyond_close", "the peer closed while a Flush was parked on the full socket: the Flush stayed blocked for as long as the user's OnDisconnect callback ran (the callback waited 8 s for the writer and gave up; Flush returned %v after the peer's close with %v): the wait went beyond the close of the connection", waited, ferr)
+		return
+	}
+	t.Nontrivial = atomic.LoadInt32(&cbRan) != 0
+	t.Stat("hup_under_disconnect_trials", 1)
+	t.Sig = fmt.Sprintf("hup-under-disconnect|rst=%v|req=%v|cb=%v", rst, withOnRequest, t.Nontrivial)
 }
